@@ -272,7 +272,7 @@ class Gen(object):
         mode = self.modes[mi]
         kind = weighted(
             rng,
-            [("valid", 4), ("pvalid", 4), ("trunc", 3), ("pfxonly", 1.5), ("random", 1.5), ("repeat", 2), ("empty", 0.2)],
+            [("valid", 4), ("pvalid", 4), ("trunc", 3), ("pfxonly", 1.5), ("random", 1.5), ("repeat", 2), ("strip", 1.5), ("addpfx", 1.5), ("empty", 0.2)],
         )
         note = None
         if kind == "valid":
@@ -290,6 +290,13 @@ class Gen(object):
             b = bytes(rng.randrange(256) for _ in range(rng.randint(1, self.d.maxlen + 2)))
         elif kind == "repeat" and self.recent:
             b = bytes.fromhex(rng.choice(self.recent))
+        elif kind == "strip" and self.recent:
+            # the tail of a recent input without its leading byte(s): what the decoder
+            # saw after consuming a prefix
+            b = bytes.fromhex(rng.choice(self.recent))
+            b = b[rng.choice([1, 1, 2]) :]
+        elif kind == "addpfx" and self.recent:
+            b = (self.prefixes(rng, mi) or (bytes([rng.choice(self.I.X86_PREFIXES)]) if self.is_x86 else b"")) + bytes.fromhex(rng.choice(self.recent))
         else:
             b = b""
         if self.name.endswith("wasm.cpu") and len(b) > 1 and b[0] in (0x0E, 0x1C):
@@ -384,6 +391,22 @@ def run(spec):
         refsrv.close()
 
 
+def fresh_decoder(proto):
+    """a decoder object in the state `proto` was in when it was captured (before
+    its first call in this world): shallow copy sharing the spec tree, with its
+    own copy of every other mutable container attribute (caches, pending state)"""
+    d = copy.copy(proto)
+    for k, v in list(vars(d).items()):
+        if k == "specs":
+            continue
+        if isinstance(v, (set, dict, list, bytearray)):
+            try:
+                setattr(d, k, copy.deepcopy(v))
+            except Exception:
+                pass
+    return d
+
+
 class IsaState(object):
     def __init__(self, name, rng):
         from .. import isa as I
@@ -391,14 +414,14 @@ class IsaState(object):
         self.name = name
         self.cpu = I.LOADED[name]
         self.shared = self.cpu.disassemble
-        self.pristine = copy.copy(self.shared)  # never called; source of memoryless references
+        self.pristine = fresh_decoder(self.shared)  # never called; source of memoryless references
         self.sut = self.shared
         self.tramp = False
         self.setmode = _setmode_fn(name, self.cpu)
         self.gen = Gen(self.cpu, name, rng, False)
 
     def episode(self, ep):
-        self.sut = copy.copy(self.pristine) if ep.get("fresh_copy") else self.shared
+        self.sut = fresh_decoder(self.pristine) if ep.get("fresh_copy") else self.shared
         if ep.get("faults") and not self.tramp:
             install_trampolines(self.shared)
             self.tramp = True
@@ -460,7 +483,7 @@ def _history(spec, config, rng, refsrv):
         if e_calls >= 2 and e_ok >= 1 and (e_fault >= 1 or not ep.get("faults")):
             digests.append(elog.digest())
             st.hit("episodes-nontrivial")
-        if last is not None and (len(to_check) < 6) and (st.c["episodes"] % 50 == 1):
+        if last is not None and (len(to_check) < 24) and (st.c["episodes"] % 12 == 1):
             to_check.append(last)
 
     while viol is None:
@@ -492,7 +515,7 @@ def _history(spec, config, rng, refsrv):
         if prev_kind:
             st.hit("probe:call-after-" + prev_kind)
         got, fired, b = do_call(S.sut, op, name, S.setmode)
-        exp, fired2, _ = do_call(copy.copy(S.pristine), op, name, S.setmode)
+        exp, fired2, _ = do_call(fresh_decoder(S.pristine), op, name, S.setmode)
         elog.event(name, op["bytes"], op.get("mode"), op.get("fault"), got)
         wlog.event(step, got)
         e_calls += 1
@@ -649,7 +672,7 @@ def run_pairs(spec):
     if name not in I.LOADED:
         return {"status": "ok", "digest": "", "nontrivial": False, "stats": {"isa-not-importable": 1}, "steps": 0}
     cpu = I.LOADED[name]
-    pristine = copy.copy(cpu.disassemble)
+    pristine = fresh_decoder(cpu.disassemble)
     install_trampolines(cpu.disassemble)
     setmode = _setmode_fn(name, cpu)
     pool = build_pool(cpu, name, spec["pool_seed"], spec["pool_n"])
@@ -658,10 +681,10 @@ def run_pairs(spec):
     pairs = 0
     for k in range(spec["start"], min(spec["start"] + spec["count"], n * n)):
         a, b = pool[k // n], pool[k % n]
-        sut = copy.copy(pristine)
+        sut = fresh_decoder(pristine)
         do_call(sut, a, name, setmode)
         got, fired, raw = do_call(sut, b, name, setmode)
-        exp, _, _ = do_call(copy.copy(pristine), b, name, setmode)
+        exp, _, _ = do_call(fresh_decoder(pristine), b, name, setmode)
         pairs += 1
         log.event(k, got)
         if got != exp:
